@@ -427,4 +427,9 @@ def expectedSeq : List Rcd → Nat → List NextRes
   | [], n + 1 => .none :: expectedSeq [] n
   | (d, a, b) :: rest, n + 1 => .some d a b :: expectedSeq rest n
 
+/-- the records returned before the first call that returns no record -/
+def leading : List NextRes → List Rcd
+  | .some d a b :: t => (d, a, b) :: leading t
+  | _ => []
+
 end Woodpile.Stream
